@@ -1,7 +1,171 @@
 import Rare.Base.Proto
+import Rare.Model.C13
+/-!
+Line-protocol ops of C13.  Common trailing fields describe the data and the library oracles:
+
+  <name>   hex of the `--sort` argument (e.g. `numeric:desc`)
+  <keys>   hex list of distinct keys
+  <values> `.` or comma separated integers (one per key)
+  <pf>     per key `e` (ParseFloat error) | `n` (NaN) | integer (order image of the float64)
+  <df>     per key `x` (ParseFormat error) | layout id
+  <dp>     `.` or rows separated by `/` (row i = layout id i), per key `x` | instant in ns
+
+  sort     <name> <keys> <values> <perm> <pf> <df> <dp>   the code as it is (closure state threaded
+                                                           through Go's insertion sort, n ≤ 12)
+  sortspec <name> <keys> <values> <perm> <pf> <df> <dp>   the specified order of the set
+  agg      <name> <keys> <values> <perm> <pf> <df> <dp>   same answer; the harness goes through the real aggregators
+  cmpseq   <name> <keys> <values> <pairs i-j,…> <pf> <df> <dp>   answers of ONE closure along a sequence
+  axioms   <name> <keys> <values> <pf> <df> <dp>          full comparison matrix (fresh closure per pair) + verdict
+-/
 namespace Rare.Drv.C13
+open Rare Rare.C13 Rare.Proto
+
+def commaList (s : String) : List String := if s = "." then [] else s.splitOn ","
+
+def asciiLower (k : Key) : Key := k.map (fun c => if 65 ≤ c ∧ c ≤ 90 then c + 32 else c)
+def isAscii (k : Key) : Bool := k.all (· < 128)
+
+def parsePF (s : String) : Option PF :=
+  if s = "e" then some .err else if s = "n" then some .nan else s.toInt?.map .val
+
+def parseOptInt (s : String) : Option (Option Int) :=
+  if s = "x" then some none else s.toInt?.map some
+
+def parseOptNat (s : String) : Option (Option Nat) :=
+  if s = "x" then some none else s.toNat?.map some
+
+structure Data where
+  name : Key
+  keys : List Key
+  values : List Int
+  o : Oracle
+
+def parseData (name keys values pf df dp : String) : Option Data := do
+  let name ← Hex.dec name
+  let keys ← decHexList keys
+  let values ← (commaList values).mapM String.toInt?
+  let pfs ← (commaList pf).mapM parsePF
+  let dfs ← (commaList df).mapM parseOptNat
+  let rows ← (if dp = "." then some [] else (dp.splitOn "/").mapM (fun r => (commaList r).mapM parseOptInt))
+  if values.length ≠ keys.length ∨ pfs.length ≠ keys.length ∨ dfs.length ≠ keys.length then none
+  else if rows.any (fun r => r.length ≠ keys.length) then none
+  else if ¬ keys.Nodup then none
+  else
+    let numT := keys.zip pfs
+    let fmtT := keys.zip dfs
+    let rowsT := rows.map (fun r => keys.zip r)
+    pure { name := name, keys := keys, values := values,
+           o := { lower := asciiLower
+                  num := fun k => (numT.lookup k).getD .err
+                  dfmt := fun k => (fmtT.lookup k).getD none
+                  dparse := fun f k => ((rowsT.getD f []).lookup k).getD none } }
+
+def Data.items (d : Data) : List NV := (d.keys.zip d.values).map (fun p => ⟨p.1, p.2⟩)
+
+def parsePerm (s : String) (n : Nat) : Option (List Nat) := do
+  let p ← (commaList s).mapM String.toNat?
+  if p.length = n ∧ p.all (· < n) ∧ p.Nodup then some p else none
+
+def parsePairs (s : String) (n : Nat) : Option (List (Nat × Nat)) :=
+  (commaList s).mapM (fun w =>
+    match w.splitOn "-" with
+    | [a, b] => do
+      let i ← a.toNat?
+      let j ← b.toNat?
+      if i < n ∧ j < n then some (i, j) else none
+    | _ => none)
+
+def errWord : SortErr → String
+  | .modifier => "err modifier"
+  | .unknown => "err unknown"
+
+/-- Does the mode look at key spellings through `strings.ToLower`? -/
+def modeLowers : Mode → Bool
+  | .contextual | .date => true
+  | _ => false
+
+def bits (l : List Bool) : String := String.ofList (l.map (fun b => if b then '1' else '0'))
+
+/-- Resolve the sort name; `inl` is the final answer for errors / unmodelled inputs. -/
+def resolve (d : Data) : Sum String (Mode × Bool) :=
+  if ¬ isAscii d.name then .inl "unmodelled non-ascii-name"
+  else match parseSort d.o.lower d.name with
+    | .error e => .inl (errWord e)
+    | .ok (nm, rev) =>
+      match lookupMode d.o.lower nm with
+      | none => .inl (errWord .unknown)
+      | some m =>
+        if modeLowers m ∧ ¬ d.keys.all isAscii then .inl "unmodelled non-ascii-key"
+        else .inr (m, rev)
+
+def specLess (d : Data) (m : Mode) (rev : Bool) : NV → NV → Bool :=
+  let l := modeSpecLess d.o sortSets d.items m
+  if rev then revLess l else l
+
+def uniform (d : Data) : Mode → Bool
+  | .contextual => ctxUniform d.o sortSets d.keys
+  | .date => dateUniform d.o sortSets d.keys
+  | _ => true
+
+def names (l : List NV) : String := hexList (l.map (·.name))
+
+def verdict (n : Nat) (m : Nat → Nat → Bool) : String :=
+  let idx := List.range n
+  let asym := idx.findSome? (fun i => idx.findSome? (fun j =>
+    if i < j ∧ m i j = m j i then some s!"asym:{i},{j}" else none))
+  match asym with
+  | some w => w
+  | none =>
+    let tr := idx.findSome? (fun i => idx.findSome? (fun j => idx.findSome? (fun k =>
+      if i ≠ j ∧ j ≠ k ∧ i ≠ k ∧ m i j ∧ m j k ∧ ¬ m i k then some s!"trans:{i},{j},{k}" else none)))
+    tr.getD "total"
 
 def handle : List String → String
+  | [op, name, keys, values, extra, pf, df, dp] =>
+    match parseData name keys values pf df dp with
+    | none => "bad-args"
+    | some d =>
+      let items := d.items
+      match resolve d with
+      | .inl ans => ans
+      | .inr (m, rev) =>
+        if op = "sort" ∨ op = "sortspec" ∨ op = "agg" then
+          match parsePerm extra items.length with
+          | none => "bad-args"
+          | some p =>
+            let arrival := p.filterMap (fun i => items[i]?)
+            if op = "sortspec" ∨ op = "agg" then s!"ok {names (isort (specLess d m rev) arrival)}"
+            else if arrival.length ≤ 12 then
+              match buildSorter d.o sortSets d.name with
+              | .error e => errWord e
+              | .ok s => s!"ok {names (goInsertionSort s.cmp s.init arrival).1}"
+            else if uniform d m then s!"ok {names (isort (specLess d m rev) arrival)}"
+            else "unmodelled stateful-large"
+        else if op = "cmpseq" then
+          match parsePairs extra items.length, buildSorter d.o sortSets d.name with
+          | some ps, .ok s =>
+            let pairs := ps.filterMap (fun ij => do let a ← items[ij.1]?; let b ← items[ij.2]?; pure (a, b))
+            s!"ok {bits (runSeq s.cmp s.init pairs)}"
+          | _, _ => "bad-args"
+        else "bad-op"
+  | ["axioms", name, keys, values, pf, df, dp] =>
+    match parseData name keys values pf df dp with
+    | none => "bad-args"
+    | some d =>
+      match resolve d with
+      | .inl ans => ans
+      | .inr _ =>
+        match buildSorter d.o sortSets d.name with
+        | .error e => errWord e
+        | .ok s =>
+          let items := d.items
+          let n := items.length
+          let arr := items.toArray
+          let m := fun (i j : Nat) => match arr[i]?, arr[j]? with
+            | some a, some b => (s.cmp s.init a b).1
+            | _, _ => false
+          let mat := (List.range n).flatMap (fun i => (List.range n).map (fun j => m i j))
+          s!"ok m={if n = 0 then "-" else bits mat} v={verdict n m}"
   | _ => "bad-op"
 
 end Rare.Drv.C13
